@@ -58,6 +58,13 @@ func replay(sub string, raw json.RawMessage) ([]h.Failure, error) {
 		}
 		return nil, nil
 	}
+	if sub == "large" {
+		var c largeCase
+		if err := json.Unmarshal(raw, &c); err != nil {
+			return nil, err
+		}
+		return checkLarge(c), nil
+	}
 	var c fileCase
 	if err := json.Unmarshal(raw, &c); err != nil {
 		return nil, err
